@@ -200,6 +200,20 @@ def entries() -> t.List[t.Tuple[str, dict, t.List[dict]]]:
                                       'G': P(('o', 'oneof', ['CA', 'F'])),
                                       'O': P(('c', 'switch', {'switch': 'S', 'cases': [['a', 'PL'], ['b', 'G']], 'name': 'swm'}))},
                             'input': 'I', 'output': 'O'})
+    # --- a one-node pipeline given as build_dag(node, node)
+    add('single', {'nodes': {'I': P(('x', 'plain'))}, 'input': 'I', 'output': 'I'}, [{'I': ['raise:E1']}, {'I': ['none']}])
+    # --- nodes that declare no marks at all (and are not the input node): the builder links them to the input node
+    # implicitly; they run after it, without arguments
+    add('markless_source', {'nodes': {'I': P(('x', 'plain')), 'K': P(), 'A': P(('p', 'in', 'I'), ('k', 'in', 'K')), 'O': P(('a', 'in', 'A'))},
+                            'input': 'I', 'output': 'O'}, [{'K': ['raise:E1']}, {'K': ['none']}])
+    add('markless_case', {'nodes': {'I': P(('x', 'plain')), 'S': P(('p', 'in', 'I')), 'K': P(), 'B': P(('p', 'in', 'I')),
+                                    'O': P(('c', 'switch', {'switch': 'S', 'cases': [['a', 'K'], ['b', 'B']], 'name': 'swk'}))},
+                          'input': 'I', 'output': 'O'}, [{'S': ['label:a'], 'K': ['raise:E1']}])
+    add('markless_candidate', {'nodes': {'I': P(('x', 'plain')), 'K': P(), 'B': P(('p', 'in', 'I')), 'O': P(('o', 'oneof', ['K', 'B']))},
+                               'input': 'I', 'output': 'O'}, [{'K': ['raise:E1']}, {'K': ['raise:E1'], 'B': ['raise:E2']}])
+    add('markless_in_rec', {'nodes': {'I': P(('x', 'plain')), 'T': P(('p', 'in', 'I')), 'K': P(), 'D': P(('p', 'in', 'T'), ('k', 'in', 'K')),
+                                      'O': P(('r', 'rec', {'start': 'T', 'dest': 'D', 'max': 2}))},
+                            'input': 'I', 'output': 'O'}, [{'D': ['next', 'ok']}, {'D': ['next', 'next', 'next']}])
     return E
 
 
